@@ -204,6 +204,12 @@ struct EnfCase {
     configured_ms: Option<u64>,
     latency_ms: u64,
     chop: usize,
+    /// tonic client sides only: an earlier call on the same channel carried this deadline (its own
+    /// outcome is not judged; it must not leak into the judged call)
+    prior_caller_ms: Option<u64>,
+    /// tonic client sides only: the caller polls the call once and then stays away this long
+    /// before awaiting it (the deadline runs from the call, not from the caller's attention)
+    idle_gap_ms: Option<u64>,
 }
 
 struct SlowEcho {
@@ -300,6 +306,13 @@ fn enf_run(c: &EnfCase) -> (EnfOutcome, u64) {
                     other => return (EnfOutcome::Other(format!("connect: {:?}", other.map(|r| r.map(|_| ()).map_err(|e| e.to_string())))), 0),
                 };
                 let mut client = EchoClient::new(chn);
+                if let Some(ms) = c.prior_caller_ms {
+                    let mut first = tonic::Request::new(vec![1]);
+                    first.set_timeout(Duration::from_millis(ms));
+                    if vnet::within(horizon, client.unary(first)).await.is_none() {
+                        return (EnfOutcome::Other("the earlier call on the channel hung".into()), 0);
+                    }
+                }
                 let mut req = tonic::Request::new(vec![1]);
                 if let Some(ms) = c.caller_ms {
                     req.set_timeout(Duration::from_millis(ms));
@@ -308,7 +321,22 @@ fn enf_run(c: &EnfCase) -> (EnfOutcome, u64) {
                     req.metadata_mut().insert("grpc-timeout", tonic::metadata::MetadataValue::try_from(bad).unwrap());
                 }
                 let t0 = tokio::time::Instant::now();
-                let r = vnet::within(horizon, client.unary(req)).await;
+                let r = match c.idle_gap_ms {
+                    None => vnet::within(horizon, client.unary(req)).await,
+                    Some(gap) => {
+                        let fut = client.unary(req);
+                        tokio::pin!(fut);
+                        // one poll gets the call under way, then the caller is busy elsewhere
+                        let first = std::future::poll_fn(|cx| std::task::Poll::Ready(std::future::Future::poll(fut.as_mut(), cx))).await;
+                        match first {
+                            std::task::Poll::Ready(r) => Some(r),
+                            std::task::Poll::Pending => {
+                                tokio::time::sleep(Duration::from_millis(gap)).await;
+                                vnet::within(horizon, fut).await
+                            }
+                        }
+                    }
+                };
                 let dt = t0.elapsed().as_millis() as u64;
                 return match r {
                     None => (EnfOutcome::Hang, dt),
@@ -383,7 +411,18 @@ fn enf_body(c: &EnfCase, _ch: &Chooser) -> Outcome {
     };
     // Side::Both: the server has no configured timeout of its own but reads the caller's header
     o.nontrivial = limit.is_some();
-    let near = |t: u64, want: u64| t + 2 >= want && t <= want + 2;
+    // a caller that stays away until both the answer and the deadline are in the past finds both
+    // ready at its next poll; which of the two a poll-driven future then reports is not fixed by
+    // the statement (nothing could have been "cut off" while nobody was polling): recorded only
+    if let Some(g) = c.idle_gap_ms {
+        if g >= c.latency_ms && limit.map(|l| c.latency_ms > l).unwrap_or(false) {
+            o.nontrivial = false;
+            return o;
+        }
+    }
+    // a caller that stayed away for `idle_gap_ms` sees the outcome no earlier than that
+    let gap = c.idle_gap_ms.unwrap_or(0);
+    let near = |t: u64, want: u64| t + 2 >= want.max(gap) && t <= want.max(gap) + 2;
     match limit {
         Some(l) if c.latency_ms > l => match &out {
             EnfOutcome::Cancelled(msg) => {
@@ -417,7 +456,7 @@ fn enf_cases(tier: Tier) -> Vec<EnfCase> {
                     n += 1;
                     let chops: Vec<usize> = if tier == Tier::Thorough { vec![0, 2, 3] } else { vec![[0, 2, 3][n % 3]] };
                     for chop in chops {
-                        out.push(EnfCase { side, malformed: None, caller_ms, configured_ms, latency_ms, chop });
+                        out.push(EnfCase { side, malformed: None, caller_ms, configured_ms, latency_ms, chop, prior_caller_ms: None, idle_gap_ms: None });
                     }
                 }
             }
@@ -427,11 +466,11 @@ fn enf_cases(tier: Tier) -> Vec<EnfCase> {
     for side in [Side::Server, Side::Client] {
         for configured_ms in [None, Some(50u64)] {
             for latency_ms in [10u64, 300] {
-                out.push(EnfCase { side, malformed: None, caller_ms: Some(0), configured_ms, latency_ms, chop: 0 });
+                out.push(EnfCase { side, malformed: None, caller_ms: Some(0), configured_ms, latency_ms, chop: 0, prior_caller_ms: None, idle_gap_ms: None });
             }
         }
         for latency_ms in [10u64, 300] {
-            out.push(EnfCase { side, malformed: None, caller_ms: Some(200), configured_ms: Some(0), latency_ms, chop: 0 });
+            out.push(EnfCase { side, malformed: None, caller_ms: Some(200), configured_ms: Some(0), latency_ms, chop: 0, prior_caller_ms: None, idle_gap_ms: None });
         }
     }
     // a malformed caller value is ignored: the configured timeout alone decides
@@ -439,14 +478,37 @@ fn enf_cases(tier: Tier) -> Vec<EnfCase> {
         for bad in ["82f", "+5S", "S", "123456789S", "5 S", "1e3m"] {
             for configured_ms in [None, Some(50u64)] {
                 for latency_ms in [10u64, 300] {
-                    out.push(EnfCase { side, malformed: Some(bad), caller_ms: None, configured_ms, latency_ms, chop: 0 });
+                    out.push(EnfCase { side, malformed: Some(bad), caller_ms: None, configured_ms, latency_ms, chop: 0, prior_caller_ms: None, idle_gap_ms: None });
                 }
+            }
+        }
+    }
+    // sequences on one channel: an earlier call's deadline must not stick to the channel
+    for side in [Side::Client, Side::Both] {
+        for prior in [20u64, 50] {
+            for caller_ms in [None, Some(200u64)] {
+                for configured_ms in [None, Some(200u64)] {
+                    for latency_ms in [10u64, 100, 300] {
+                        if side == Side::Both && configured_ms.is_some() {
+                            continue;
+                        }
+                        out.push(EnfCase { side, malformed: None, caller_ms, configured_ms, latency_ms, chop: 0, prior_caller_ms: Some(prior), idle_gap_ms: None });
+                    }
+                }
+            }
+        }
+    }
+    // a caller that polls once and then stays away: the deadline runs from the call
+    for gap in [30u64, 150, 400] {
+        for (caller_ms, configured_ms) in [(None, Some(50u64)), (Some(50u64), None), (Some(200u64), Some(50u64)), (None, None)] {
+            for latency_ms in [10u64, 100, 300] {
+                out.push(EnfCase { side: Side::Client, malformed: None, caller_ms, configured_ms, latency_ms, chop: 0, prior_caller_ms: None, idle_gap_ms: Some(gap) });
             }
         }
     }
     for caller_ms in [None, Some(50u64), Some(200)] {
         for latency_ms in [10u64, 100, 300] {
-            out.push(EnfCase { side: Side::Both, malformed: None, caller_ms, configured_ms: None, latency_ms, chop: 0 });
+            out.push(EnfCase { side: Side::Both, malformed: None, caller_ms, configured_ms: None, latency_ms, chop: 0, prior_caller_ms: None, idle_gap_ms: None });
         }
     }
     out
@@ -477,7 +539,7 @@ pub fn property(tier: Tier) -> Property {
     let enf = Section::new(
         "enforce",
         Config { hang_secs: 60, ..Default::default() },
-        "cases: the full grid caller timeout {none, 50, 200 ms} x configured timeout {none, 50, 200 ms} x handler latency {10, 100, 300 ms} (off the exact ties) for each side against a NON-tonic peer — Server::timeout driven by a bare hyper HTTP/2 client sending grpc-timeout, and Endpoint::timeout + Request::set_timeout against a bare hyper HTTP/2 server with scripted latency (so that one side's enforcement cannot mask the other's) — plus zero deadlines (caller 0 or configured 0: cut off at t = 0), plus the same with a malformed caller value (82f, +5S, S, 9 digits, '5 S', 1e3m: ignored, the configured timeout alone decides), plus a tonic-to-tonic pass for the caller-visible status text; in-memory pipes, paused clock (exact virtual durations); oracle: latency below the shorter deadline => the real answer at t = latency; above => CANCELLED 'Timeout expired' at t = min(caller, configured) (+-2 ms timer granularity). Non-trivial = some deadline is set.",
+        "cases: the full grid caller timeout {none, 50, 200 ms} x configured timeout {none, 50, 200 ms} x handler latency {10, 100, 300 ms} (off the exact ties) for each side against a NON-tonic peer — Server::timeout driven by a bare hyper HTTP/2 client sending grpc-timeout, and Endpoint::timeout + Request::set_timeout against a bare hyper HTTP/2 server with scripted latency (so that one side's enforcement cannot mask the other's) — plus zero deadlines (caller 0 or configured 0: cut off at t = 0), plus the same with a malformed caller value (82f, +5S, S, 9 digits, '5 S', 1e3m: ignored, the configured timeout alone decides), plus sequences on one channel (an earlier call carrying a 20 / 50 ms deadline must not leak into the judged call), plus callers that poll the call once and then stay away 30 / 150 / 400 ms before awaiting it (the deadline runs from the call), plus a tonic-to-tonic pass for the caller-visible status text; in-memory pipes, paused clock (exact virtual durations); oracle: latency below the shorter deadline => the real answer at t = latency; above => CANCELLED 'Timeout expired' at t = min(caller, configured) (+-2 ms timer granularity). Non-trivial = some deadline is set.",
         enf_cases(tier),
         |c: &EnfCase| format!("{c:?}"),
         enf_body,
